@@ -132,6 +132,24 @@ theorem C05_no_result {α} (ops : List (Op α)) (h : NoExec ops) :
     · exact ih (fun o' ho' => h o' (by simp [ho'])) (sstep s0 x).2
         (by rw [sstep_res _ _ (h x (by simp)), hres]) o ho
 
+/-- **fetch_pandas_all agrees with the rows**: at any point of any fetch sequence after a statement producing `rs`,
+    `fetch_pandas_all` returns exactly `rs` (all of it, whatever has been fetched already) and leaves the read
+    position where it was, so every later fetch answers as if it had not been called. -/
+theorem C05_pandas_whole_result {α} (rs : List α) (asz : Nat) (ops more : List (Op α)) (h : NoExec ops) :
+    (run (executed rs asz) (ops ++ .pandas :: more)).1 =
+      (run (executed rs asz) ops).1 ++ .frame rs :: (run (run (executed rs asz) ops).2 more).1 := by
+  have split : ∀ (a b : List (Op α)) (c : Cur α), (run c (a ++ b)).1 = (run c a).1 ++ (run (run c a).2 b).1 := by
+    intro a b c
+    induction a generalizing c with
+    | nil => simp [run]
+    | cons x xs ih => simp [run, ih]
+  rw [split]
+  congr 1
+  have hrows : (run (executed rs asz) ops).2.rows? = some rs := by
+    have hs := sim_run _ _ ops (sim_executed rs asz)
+    rw [hs.2.1, srun_res _ _ h]; rfl
+  simp only [run, step, hrows]
+
 /-- **A failed execute leaves no result set**: whatever the cursor held, after an execute (or describe) that
     raised, every fetch raises the no-result-set error until the next successful execute — a stale result is
     never handed out. -/
